@@ -807,6 +807,12 @@ def main(run: core.Run, only=None):
                 for ox, oy in ((0.0, 0.0), (7.5, 3.0)):
                     rects.append({"kind": "rect", "W": f * s, "H": other, "spacing": s, "ox": ox, "oy": oy})
                     rects.append({"kind": "rect", "W": other, "H": f * s, "spacing": s, "ox": ox, "oy": oy})
+    # sizes and spacings that are not round numbers (the last row is reached by accumulating the row step and lands within round-off of the far side)
+    for W, H, s_ in ((120.5, 80.25, 7.0), (80.25, 120.5, 7.0), (47.3, 33.9, 7.3), (91.7, 64.1, 10.0)) if quick else \
+            [(W, H, s_) for W in (120.5, 80.25, 47.3, 91.7, 33.9) for H in (80.25, 64.1, 33.9, 120.5) for s_ in (7.0, 7.3, 10.0, 12.5)]:
+        for ox, oy in ((0.0, 0.0), (7.5, 3.0), (13.37, 21.9)):
+            if W >= 2 * s_ and H >= 2 * s_:
+                rects.append({"kind": "rect", "W": W, "H": H, "spacing": s_, "ox": ox, "oy": oy})
     rects += [dict(r, extra=[side, frac]) for r in rects[:: (7 if quick else 2)] if r["W"] >= 2 * r["spacing"] and r["H"] >= 2 * r["spacing"]
               for side in (0, 1, 2, 3) for frac in (0.5, 0.37)]
     run.drive(rects, family="rectangles")
